@@ -33,8 +33,8 @@ pub fn spec() -> PropSpec {
 pub struct Pair {
     pub a: Opts,
     pub b: Opts,
-    pub obs_a: Option<(f64, f64)>,
-    pub obs_b: Option<(f64, f64)>,
+    pub obs_a: Option<String>,
+    pub obs_b: Option<String>,
     pub lines: Vec<Vec<u8>>,
 }
 
@@ -51,11 +51,16 @@ fn pair_strategy(rec: std::sync::Arc<Vec<Vec<u8>>>) -> BoxedStrategy<Pair> {
         2 => (0..nrec).prop_map(move |i| rec.get(i).cloned().unwrap_or_default()),
         1 => gen::junk_line(),
     ];
-    let obs = || prop_oneof![1 => Just(None), 2 => (-80.0f64..80.0, -170.0f64..170.0).prop_map(|(a, b)| Some(((a * 100.0).round() / 100.0, (b * 100.0).round() / 100.0)))];
+    // any observer: ordinary coordinates, the antipodes of the places the generated traffic flies at, non-finite values
+    let obs = || prop_oneof![
+        2 => Just(None),
+        6 => (-80.0f64..80.0, -170.0f64..170.0).prop_map(|(a, b)| Some(format!("{:.2}, {:.2}", a, b))),
+        1 => proptest::sample::select(vec!["-52.25,-176.08", "33.9,-28.8", "-10.2,0.05", "-64.1,158.1", "90,0", "-90,180", "0,0", "nan,nan", "inf,0", "0,-inf", "NaN, 12"]).prop_map(|s| Some(s.to_string())),
+    ];
     let shared = (any::<bool>(), any::<bool>(), prop_oneof![3 => Just(None), 1 => proptest::sample::subsequence(bits::NINE.to_vec(), 2..8).prop_map(Some)], proptest::sample::select(vec![0i64, 60, 600, 100_000]));
     (shared, presentation(), presentation(), obs(), obs(), proptest::collection::vec(line, 1..60))
         .prop_map(|((u, r, f, d), pa, pb, obs_a, obs_b, lines)| {
-            let mk = |p: (Vec<String>, Vec<String>, bool, i64, Option<Vec<u32>>, bool)| Opts { u, r, f: f.clone(), d, i: p.0, o: p.1, c: p.2, upd: p.3, m: p.4, dl: p.5 };
+            let mk = |p: (Vec<String>, Vec<String>, bool, i64, Option<Vec<u32>>, bool)| Opts { u, r, f: f.clone(), d, i: p.0, o: p.1, c: p.2, upd: p.3, m: p.4, dl: p.5, fmt: None };
             Pair { a: mk(pa), b: mk(pb), obs_a, obs_b, lines }
         })
         .boxed()
@@ -65,10 +70,10 @@ fn strip_dist(t: &TableSnap) -> TableSnap {
     t.iter().map(|(k, v)| { let mut s = v.clone(); s.dist = None; (*k, s) }).collect()
 }
 
-fn run_one(o: &Opts, obs: &Option<(f64, f64)>, data: &[u8]) -> Result<TableSnap, String> {
+fn run_one(o: &Opts, obs: &Option<String>, data: &[u8]) -> Result<TableSnap, String> {
     // default observer of the program when -O is not given
     match obs {
-        Some((a, b)) => squitterator::set_observer_coords_from_str(&format!("{}, {}", a, b)),
+        Some(s) => squitterator::set_observer_coords_from_str(s),
         None => squitterator::set_observer_coords_from_str("52.66411442720024, -8.622299905360963"),
     }
     let t = run::new_table();
